@@ -1300,3 +1300,72 @@ fn c07_parse_num_int() {
     assert!(matches!(&*r, Ok(Num::Int(77))));
     assert!(unsafe { RADIX_ARG } == Some((4, b'-', b'0', 10)));
 }
+
+// ------------------------------------------------------------------------------------------
+// C12: contains, indices (points on concrete containers)
+// ------------------------------------------------------------------------------------------
+fn int_arr(xs: &[isize]) -> MD<Val> {
+    MD::new(Val::Arr(Rc::new(xs.iter().map(|i| Val::Num(Num::Int(*i))).collect())))
+}
+/// arrays: every element of the argument is contained in some element of the input - the
+/// argument may be longer than the input
+#[kani::proof]
+#[kani::unwind(8)]
+fn c12_contains_arrays() {
+    use crate::funs::verif_contains as contains;
+    assert!(contains(&int_arr(&[1, 2]), &int_arr(&[1, 1, 2])));
+    assert!(!contains(&int_arr(&[1, 2]), &int_arr(&[3])));
+    assert!(contains(&int_arr(&[1, 2]), &int_arr(&[])));
+    assert!(!contains(&int_arr(&[]), &int_arr(&[1])));
+}
+fn idx_is(r: Option<(usize, [usize; 4])>, n: usize, e: [usize; 4]) -> bool {
+    match r {
+        Some((m, g)) => m == n && g[0] == e[0] && g[1] == e[1] && g[2] == e[2] && g[3] == e[3],
+        None => false,
+    }
+}
+/// arrays: `indices($x)` lists exactly the i with `.[i:][:$x|length] == $x`; the empty array
+/// matches nowhere
+#[kani::proof]
+#[kani::unwind(8)]
+fn c12_indices_arrays() {
+    use crate::funs::verif_indices as indices;
+    let a = int_arr(&[1, 2, 1]);
+    assert!(idx_is(indices(&a, &int_arr(&[2, 1])), 1, [1, usize::MAX, usize::MAX, usize::MAX]));
+    assert!(idx_is(indices(&a, &int_arr(&[2, 2])), 0, [usize::MAX; 4]));
+    // overlapping matches are all listed
+    assert!(idx_is(indices(&int_arr(&[1, 1, 1]), &int_arr(&[1, 1])), 2, [0, 1, usize::MAX, usize::MAX]));
+    assert!(idx_is(indices(&a, &int_arr(&[])), 0, [usize::MAX; 4]));
+}
+/// a non-array argument lists the positions of equal elements
+#[kani::proof]
+#[kani::unwind(8)]
+fn c12_indices_element() {
+    use crate::funs::verif_indices as indices;
+    let a = int_arr(&[1, 2, 1]);
+    let one = MD::new(Val::Num(Num::Int(1)));
+    assert!(idx_is(indices(&a, &one), 2, [0, 2, usize::MAX, usize::MAX]));
+}
+/// byte strings: window positions in bytes
+#[kani::proof]
+#[kani::unwind(8)]
+fn c12_indices_bytes() {
+    use crate::funs::verif_indices as indices;
+    let a = MD::new(Val::byte_str(Vec::from(*b"abab")));
+    let ab = MD::new(Val::byte_str(Vec::from(*b"ab")));
+    let e = MD::new(Val::byte_str(Vec::new()));
+    assert!(idx_is(indices(&a, &ab), 2, [0, 2, usize::MAX, usize::MAX]));
+    assert!(idx_is(indices(&a, &e), 0, [usize::MAX; 4]));
+}
+
+/// text strings: positions count characters, windows are compared as bytes
+#[kani::proof]
+#[kani::unwind(10)]
+fn c12_indices_text() {
+    use crate::funs::verif_indices as indices;
+    let a = MD::new(Val::utf8_str(Vec::from("a\u{e4}a\u{e4}".as_bytes())));
+    let ae = MD::new(Val::utf8_str(Vec::from("\u{e4}".as_bytes())));
+    let e = MD::new(Val::utf8_str(Vec::new()));
+    assert!(idx_is(indices(&a, &ae), 2, [1, 3, usize::MAX, usize::MAX]));
+    assert!(idx_is(indices(&a, &e), 0, [usize::MAX; 4]));
+}
